@@ -2,7 +2,7 @@
    only; proofs in IRCP.OperP, IRCP.ModesFrame, IRCP.OperGlobal and IRCP.InvStep (delivery of
    pending KILLs). *)
 From IRC Require Import Str Wild Glob Parse Reply State Handlers Step.
-From IRCP Require Import MsgP InvDefs InvStep OperP ModesFrame OperGlobal KillP DieP.
+From IRCP Require Import MsgP InvDefs InvStep OperP ModesFrame OperGlobal ModesGlobal KillP DieP.
 From stdpp Require Import gmap.
 
 (* THE global statement.  For every step of every connection i from a world satisfying the
@@ -28,6 +28,25 @@ Theorem C11_no_other_command_confers : forall cfg verify i s c cmd msg r,
   dispatch cfg verify i s c cmd msg = Ok r -> (forall name pw, cmd <> OPER name pw) ->
   no_new_oper s (h_sh r) /\ no_new_local_oper s (h_sh r).
 Proof. exact dispatch_no_new_oper. Qed.
+
+(* NO USER CAN CHANGE ANOTHER USER'S MODES, over every event of every connection: a user record found after a
+   step carries the user modes of a record of the same connection before it (under the same nick or - NICK - the old
+   one), unless the event is a line of a registered connection whose command is MODE (then only the sender's own
+   record may differ) or OPER (only the sender's own record, the operator flag is not cleared and the local-operator
+   flag not touched), or the record was just created by a completed registration with the configured defaults *)
+Theorem C11_modes_follow_commands : forall cfg verify w i e w' o cl, Inv w -> step cfg verify w i e = Ok (w', o, cl) ->
+  forall n u', users (sh w') !! n = Some u' -> step_modes_source cfg w i e n u'.
+Proof. exact modes_follow_commands. Qed.
+
+(* LOSES IT BY REMOVING THE MODE OR DISCONNECTING: a user who stays connected and is no longer an operator after a
+   step has sent a MODE command itself in that step - nobody else's command, and no other command of its own
+   (NICK, OPER with a wrong password, AWAY, ...) takes operator status away *)
+Theorem C11_oper_lost_only_by_own_mode : forall cfg verify w i e w' o cl n u' n0 u, Inv w -> step cfg verify w i e = Ok (w', o, cl) ->
+  users (sh w') !! n = Some u' -> users (sh w) !! n0 = Some u -> u_conn u = u_conn u' ->
+  um_oper (u_modes u) = true -> um_oper (u_modes u') = false ->
+  u_conn u' = i /\ exists c l msg target modes, conns w !! i = Some c /\ c_auth c = true /\ e = EvLine l /\ tokenize l = inl msg /\
+                                                 command_of_message msg = inl (MODE target modes).
+Proof. exact oper_lost_only_by_own_mode. Qed.
 
 (* JOIN, PART, KICK, TOPIC, INVITE, channel MODE, KILL, DIE, AWAY leave every user's owner and
    user modes as they were (records may lose memberships / gain marks, never modes) *)
@@ -166,6 +185,8 @@ End C11.
 
 Print Assumptions C11_operator_only_from_oper.
 Print Assumptions C11_no_other_command_confers.
+Print Assumptions C11_modes_follow_commands.
+Print Assumptions C11_oper_lost_only_by_own_mode.
 Print Assumptions C11_modes_untouched_by_channel_commands.
 Print Assumptions C11_kill_effect.
 Print Assumptions C11_die_ends_all.
